@@ -38,6 +38,20 @@ def d2(db, rep, rule="D2-NEWEST-FIRST"):
     want = {(r_, f_) for r_ in range(8) for f_ in range(8) if (r_ & ~f_) == 0}
     for r in rets:
         conds = fc.conds(r)
+        # the rule comes from a rule set of the opcode's OWN opcode set: rule sets are arrays indexed by the position of an opcode in
+        # its set, so a set made for another opcode set holds the rule of some other opcode at that position
+        own = False
+        for x in conds:
+            if x[0] == "switch":
+                continue
+            e = strip_casts(x[0])
+            if e.k == "BinaryOperator" and e.op in ("==", "!=") and all(unparse(strip_casts(y)).endswith("opcode_major") for y in e.c[:2]) and (x[1] is True) == (e.op == "=="):
+                own = True
+        rep.check(own, rule, where(gr), "rule-set-of-own-opcode-set@%s" % r.line,
+                  "a rule is returned only from a rule set whose opcode_major is that of the opcode's set",
+                  "orc_target_get_rule can return a rule from a rule set that belongs to ANOTHER opcode set (no opcode_major comparison dominates the return "
+                  "at line %s): an opcode without a rule on this target - an application opcode, say - is then compiled with the rule that sits at the same "
+                  "index in the built-in sets, and wrong native code runs instead of the emulation fallback" % r.line, line=r.line)
         from flow import single_defs
         _sd = single_defs(gr)
         res = lambda nm: _sd.get(nm)
